@@ -52,7 +52,11 @@ static void run()
     *(void**)&cm.m_options = &cp;                                  // ChainstateManagerOpts::chainparams (first member, a reference)
     VASSERT(&cm.GetParams() == &cp, "phantom chainparams wired");
     const uint64_t prune_after = nondet_u64(); cp.nPruneAfterHeight = prune_after;
-    const uint64_t prune_target = nondet_u64(); poke(bm.m_opts.prune_target, prune_target);
+    const uint64_t prune_target = nondet_u64();
+    // assumption: configured target below 2^63 bytes, or the manual-only sentinel PRUNE_TARGET_MANUAL (2^64-1). Otherwise the debug log line of
+    // FindFilesToPrune computes int64_t(target) - int64_t(usage) with signed overflow (only with -prune >= 8 EiB; see report)
+    VASSUME(prune_target <= (uint64_t)INT64_MAX || prune_target == UINT64_MAX);
+    poke(bm.m_opts.prune_target, prune_target);
     poke(bm.m_prune_mode, true);
     const bool ibd = nondet_bool(); new (&cm.m_cached_is_ibd) std::atomic_bool(ibd);
     static CBlockIndex best; const int best_h = (int)nondet_range(0, INT_MAX); best.nHeight = best_h; cm.m_best_header = &best;
@@ -64,7 +68,7 @@ static void run()
     for (int i = 0; i < NCS; i++) {
         Chainstate& c = cs_store[i].obj();
         new (&c.m_chain) CChain();
-        void** slot = ref_slot_after(c, c.m_last_script_check_reason_logged); slot[0] = &bm; slot[1] = &cm;
+        void** slot = REF_SLOT_AFTER(c, Chainstate, m_last_script_check_reason_logged); slot[0] = &bm; slot[1] = &cm;
         VASSERT(&c.m_chainman == &cm && &c.m_blockman == &bm, "phantom reference members wired");
         in[i].snapshot = nondet_bool(); in[i].au = (unsigned)nondet_range(0, 2); in[i].target = nondet_bool(); in[i].target_utxo = nondet_bool();
         uint256 hash; hash.data()[0] = 1;
@@ -87,6 +91,9 @@ static void run()
     for (int f = 0; f < NF; f++) {
         CBlockFileInfo& x = bm.m_blockfile_info[f];
         x.nBlocks = nondet_u32(); x.nSize = nondet_u32(); x.nUndoSize = nondet_u32(); x.nHeightFirst = nondet_u32(); x.nHeightLast = nondet_u32();
+        // assumption: block + undo bytes of one file fit 32 bits (the code adds the two uint32 fields in 32-bit arithmetic; block files are
+        // capped at MAX_BLOCKFILE_SIZE = 128 MiB by FindNextBlockPos, undo files stay far below 4 GiB - 128 MiB for any realistic chain)
+        VASSUME((uint64_t)x.nSize + x.nUndoSize <= 0xffffffffULL);
         T0[f] = x;
     }
     // file cursors: the file currently written for normal / assumed-valid chainstates; the info table covers them (FindNextBlockPos resizes it first)
@@ -161,24 +168,28 @@ static void run()
         for (int i = 0; i < NCS; i++) if (in[i].au != 2 && in[i].target && !in[i].target_utxo) hist = true;
         const uint64_t MiB = 1024 * 1024;
         uint64_t target = hist ? (prune_target >> 1) : prune_target; if (target < 550 * MiB) target = 550 * MiB;
-        unsigned __int128 buffer = 17 * MiB;
+        const unsigned __int128 base_buffer = 17 * MiB;              // one block-file chunk + one undo-file chunk of pre-allocation
         const bool gate = h >= 0 && (unsigned __int128)h > prune_after;
         if (!gate) VASSERT(n == 0, "nothing is pruned while the tip is not above PruneAfterHeight (or the chain is empty)");
-        if (sum + buffer < target) VASSERT(n == 0, "nothing is pruned while usage plus the allocation buffer is below the target");
+        const bool over = !(sum + base_buffer < target);
+        if (!over) VASSERT(n == 0, "nothing is pruned while usage plus the allocation buffer is below the target");
+        // once over the target, pruning during initial block download aims lower by ~1 MB per block still to be downloaded
+        unsigned __int128 buffer = base_buffer;
         if (ibd && (int64_t)best_h > h) buffer += (uint64_t)1000000 * (uint64_t)((int64_t)best_h - h);   // < 2^51
-        // stop condition
         unsigned __int128 left = sum; bool no_over = true;
         for (int f = 0; f < NF; f++) if (pruned[f]) {                 // files are pruned in ascending order (asserted above)
             if (left + buffer < target) no_over = false;               // this file was pruned although usage was already back under the target
             left -= (unsigned __int128)T0[f].nSize + T0[f].nUndoSize;
         }
         VASSERT(no_over, "pruning stops as soon as usage plus buffer is below the target");
-        if (gate) VASSERT(left + buffer < target || !any_left, "on return usage is back under the target or no eligible file remains");
+        if (gate) VASSERT(left + base_buffer < target || !any_left, "on return usage (plus allocation buffer) is back under the target or no eligible file remains");
+        if (gate && over) VASSERT(left + buffer < target || !any_left, "when pruning was triggered it continues down to the (IBD-enlarged) buffer or until no eligible file remains");
         VASSERT((unsigned __int128)bm.CalculateCurrentUsage() == left, "usage after pruning = usage before minus the pruned files (no wrap)");
         VWITNESS(n == NF - 1 && NF > 1, "all prunable files pruned");
         VWITNESS(gate && n == 0 && any_left, "below target: eligible file kept");
         VWITNESS(gate && n > 0 && any_left, "stopped early with an eligible file left");
-        VWITNESS(gate && n == 0 && !(sum + buffer < target), "over target but nothing eligible");
+        VWITNESS(gate && n == 0 && over, "over target but nothing eligible");
+        VWITNESS(gate && n > 0 && left + base_buffer < target && !(left + buffer < target) && !any_left, "IBD buffer makes pruning go below the plain target");
         VWITNESS(hist && n > 0, "historical chainstate halves the target");
     }
     VREACH("end");
